@@ -91,6 +91,20 @@ CHECKS = {
         note="Sequences the documentation does not classify (repeated empty table, table without header line, wrong-shaped row in header position) are counted and not judged. The base input is first run unmodified and must succeed, so rejections are not vacuous.",
         design="3/C12",
     ),
+    "C13": dict(
+        category="exploration",
+        technique="bounded-exhaustive history tree x second asset x windows x methods x country/language through spreadsheet -> parse_ods -> compute_tax -> the real rp2_full_report plugin in a forked child; .ods read back (direct content.xml reader) and compared cell by cell",
+        text="Asset B1 ranges over every valid history up to depth 3 over a 9-symbol multi-year alphabet (incl. a purchase with crypto fee, FEE-typed and gift disposals, fee-bearing transfer), asset B2 over fixed histories with colliding spreadsheet row numbers, unique ids and notes on all rows, sheet order different from time order; x 10 windows (none / from / to / both, empty and one-day windows) x fifo / hifo / fifo->hifo schedule x 6 country-language pairs (slice). Each case runs the real generator once; the written file is read back and every In/Out/Intra row, running sum and sold % (also recomputed independently from the input rows), summary line, balance and holder total, average price, detail row (amount, proceeds, cost, gain, LONG/SHORT, k/n labels, lot figures), the Summary sheet and the Legend (method(s), filters) is compared with the ComputedData the generator was given.",
+        note="Plain cells are doubles (1e-11 relative); the correctness of the ComputedData itself is C01-C10's business. Tables are located by their translated titles, not by recomputing RP2's row arithmetic.",
+        design="3/C13",
+    ),
+    "C19": dict(
+        category="exploration",
+        technique="same generator seam as C13 x every date window; every HYPERLINK formula is followed into the sheet and row it names and the unique id found there is compared",
+        text="Two assets sharing spreadsheet row numbers (their row orders run in opposite directions so that late rows of one collide with early rows of the other), unique ids on all rows; B1 = every valid history up to depth 3; depth <= 2: every from-only / to-only window over the dates of interest and from+to pairs (thorough: all pairs, 3 second assets, both row orders), depth 3: from-dates on / after each transaction. For every taxable-event and acquired-lot cell of '<asset> Tax': the link names '<asset> In-Out' and the row holding the same unique id, or the cell carries no link when the window hides the transaction; every Summary cell links to the first shown detail row of that year in that asset's Tax sheet (or carries no link when none is shown).",
+        note="Identity of a transaction in the report = the unique id printed on its In-Out row.",
+        design="3/C19",
+    ),
 }
 
 NOT_YET = {
